@@ -8,6 +8,7 @@ package main
 import (
 	"fmt"
 	"go/ast"
+	"go/types"
 	goparser "go/parser"
 	"go/token"
 	"math/big"
@@ -934,6 +935,32 @@ func (c *EvalCtx) stage2Builtin(n *Node) (Val, bool) {
 		decl, _ := c.eval(n.Kids[1]).(Text)
 		dn, _ := decl.concrete()
 		return mkBool(sk.shadowName != "" && sk.shadowName != dn && sk.shadowOf == dn && sk.plainType == sk.shadowName && sk.finalConv == dn && sk.typeDecls == 1), true
+	case "has_elem":
+		// has_elem(slice, dynType, field1, v1, ...): some element has that dynamic
+		// type and those field values
+		sl, ok := c.eval(n.Kids[0]).(SliceV)
+		if !ok {
+			specErr(n, "has_elem: slice expected")
+		}
+		want, _ := c.eval(n.Kids[1]).(Text).concrete()
+		var alts []*T
+		for i := 0; i < sl.Len_; i++ {
+			el := c.st.load(sl.Arr.sub(sl.Lo + i))
+			var base Val = el
+			if iv, ok := el.(Iface); ok {
+				if iv.Dyn == nil || types.TypeString(iv.Dyn, func(p *types.Package) string { return p.Name() }) != want {
+					continue
+				}
+				base = iv.V
+			}
+			conj := []*T{}
+			for k := 2; k+1 < len(n.Kids); k += 2 {
+				fname, _ := c.eval(n.Kids[k]).(Text).concrete()
+				conj = append(conj, c.valEq(n, c.sel(n, base, fname), c.eval(n.Kids[k+1])))
+			}
+			alts = append(alts, mkAnd(conj...))
+		}
+		return mkOr(alts...), true
 	case "map_has":
 		m, ok := c.eval(n.Kids[0]).(MapV)
 		if !ok {
